@@ -250,7 +250,9 @@ def simple(pid, level, sub, configs_quick, configs_thorough=None):
                 results.append(dict(config=c, evaluations=0, distinct_nontrivial=0, exhaustive=False, rule="", samples=[],
                                     violations=[secondary_build_failure(pid, c, str(e))]))
                 continue
-            results.append(run_engine(c, [sub, "--tier", tier], "%s-%s-%s" % (pid, tier, c), timeout=(900 if tier == "quick" else 6 * 3600)))
+            # the unoptimised `dev` build only confirms that ovf findings are real `cargo build` behaviour: small windows
+            env_extra = {"VH_W": "3"} if c == "dev" else None
+            results.append(run_engine(c, [sub, "--tier", tier], "%s-%s-%s" % (pid, tier, c), timeout=(900 if tier == "quick" else 6 * 3600), env_extra=env_extra))
         return finish(pid, tier, level, results, t0)
     return run
 
